@@ -332,7 +332,9 @@ def run(chk, w):
     chk.rule("C05-ACC", "every access to the node table region (incl. the counters) holds bidib_node_state_table_mutex")
     from .. import access
     db = access.AccessDB(w)
-    accs = db.by_region.get(("node_state_table", None), [])
+    from .. import nodestate as _ns
+    tbl = _ns.Roles(w).table_global or "node_state_table"
+    accs = db.by_region.get((tbl, None), [])
     chk.floor("node_table_accesses", len(accs), 100)
     for a in accs:
         if locks.ls_get(a.ls, "bidib_node_state_table_mutex") is None:
